@@ -221,6 +221,29 @@ impl El for f64 {
     }
 }
 
+macro_rules! impl_el_unsigned {
+    ($($T:ident),+) => {$(
+        impl El for $T {
+            const TY: &'static str = stringify!($T);
+            fn hash_into(self, h: &mut H64) { h.i(self as i128); }
+            fn from_frac(n: i64, d: i64) -> $T { (n / d) as $T }
+            fn dens() -> &'static [i64] { &[1] }
+        }
+        impl UEl for $T {
+            const MAXI: i64 = $T::MAX as i64;
+            fn to_i(self) -> i64 { self as i64 }
+            fn of_i(i: i64) -> $T { assert!(i >= 0 && i <= $T::MAX as i64, "harness: {} does not fit {}", i, stringify!($T)); i as $T }
+        }
+    )+};
+}
+/// unsigned element (pixel / grid coordinates)
+trait UEl: El {
+    const MAXI: i64;
+    fn to_i(self) -> i64;
+    fn of_i(i: i64) -> Self;
+}
+impl_el_unsigned!(u8, u16, u32);
+
 /// Real-valued element: how a distance is judged.
 trait RealEl: El + Real + RelativeEq {
     /// is `r` the non-negative root of `sumsq`?  `None` = cannot be judged (ill-conditioned)
@@ -1404,6 +1427,149 @@ where
     })
 }
 
+// ------------------------------------------------------------------ unsigned element types
+
+/// Boxes and rectangles over unsigned coordinates (the usual pixel / tile rectangle): every input,
+/// every point set named by the property and every result below is made of natural numbers that fit
+/// the type, so the answer exists in the type and must come back: in a build with overflow checks a
+/// negative intermediate shows as a panic, in a release build as a wrapped (wrong) value.
+/// Left out on purpose, because their value or vek's documented formula leaves the naturals:
+/// collision vectors (signed by definition), the intersection *rectangle* of disjoint rectangles
+/// (negative extent), size of an invalid box, center when min+max exceeds the type.
+fn unsigned_case<T: UEl, const D: usize, S: Space<T, D>>(cx: &mut Cx, rng: &mut Rng, h: &mut H64, desc: &RefCell<String>) -> bool {
+    // coordinates on a small grid, either at the bottom of the type's range or right at its top
+    let span = 9i64;
+    let base = if rng.chance(1, 3) { T::MAXI - 2 * span } else if rng.chance(1, 2) { 0 } else { rng.range_i64(0, T::MAXI - 2 * span) };
+    let gen = |rng: &mut Rng| -> ([i64; D], [i64; D]) {
+        let (mut lo, mut hi) = ([0i64; D], [0i64; D]);
+        for k in 0..D {
+            let a = base + rng.range_i64(0, span);
+            let b = if rng.chance(1, 8) { a } else { base + rng.range_i64(0, span) };
+            lo[k] = a.min(b);
+            hi[k] = a.max(b);
+        }
+        (lo, hi)
+    };
+    let (alo, ahi) = gen(rng);
+    let (mut blo, mut bhi) = gen(rng);
+    for k in 0..D {
+        match rng.below(8) {
+            0 => { blo[k] = ahi[k]; bhi[k] = bhi[k].max(blo[k]); }
+            1 => { bhi[k] = alo[k]; blo[k] = blo[k].min(bhi[k]); }
+            2 => blo[k] = alo[k].min(bhi[k]),
+            _ => {}
+        }
+    }
+    let mut p = [0i64; D];
+    for k in 0..D {
+        p[k] = match rng.below(5) { 0 => alo[k], 1 => ahi[k], _ => base + rng.range_i64(0, span + 4) };
+    }
+    for v in alo.iter().chain(&ahi).chain(&blo).chain(&bhi).chain(&p) {
+        h.i(*v as i128);
+    }
+    let t = |v: [i64; D]| -> [T; D] { v.map(T::of_i) };
+    let bx = |lo: [i64; D], hi: [i64; D]| Bx { min: t(lo), max: t(hi) };
+    let rc = |lo: [i64; D], hi: [i64; D]| { let mut e = [0i64; D]; for k in 0..D { e[k] = hi[k] - lo[k]; } Rc { pos: t(lo), ext: t(e) } };
+    let (a, b) = (bx(alo, ahi), bx(blo, bhi));
+    let (ra, rb) = (rc(alo, ahi), rc(blo, bhi));
+    *desc.borrow_mut() = format!("{} {}-D: a={:?} b={:?} p={:?} (as rectangles: {:?}, {:?})", T::TY, D, a, b, p, ra, rb);
+    let all = |f: &dyn Fn(usize) -> bool| (0..D).all(|k| f(k));
+    // point-set oracles on i64
+    let e_contains_p = all(&|k| alo[k] <= p[k] && p[k] <= ahi[k]);
+    let e_contains_b = all(&|k| alo[k] <= blo[k] && bhi[k] <= ahi[k]);
+    let e_collide = all(&|k| ahi[k] > blo[k] && alo[k] < bhi[k]);
+    let (mut ulo, mut uhi, mut ilo, mut ihi, mut plo, mut phi, mut proj) = ([0i64; D], [0i64; D], [0i64; D], [0i64; D], [0i64; D], [0i64; D], [0i64; D]);
+    for k in 0..D {
+        ulo[k] = alo[k].min(blo[k]);
+        uhi[k] = ahi[k].max(bhi[k]);
+        ilo[k] = alo[k].max(blo[k]);
+        ihi[k] = ahi[k].min(bhi[k]);
+        plo[k] = alo[k].min(p[k]);
+        phi[k] = ahi[k].max(p[k]);
+        proj[k] = p[k].max(alo[k]).min(ahi[k]);
+    }
+    let common = all(&|k| ilo[k] <= ihi[k]);
+    macro_rules! same {
+        ($api:expr, $what:expr, $got:expr, $exp:expr) => {{
+            let (g, e) = ($got, $exp);
+            if g != e {
+                cx.fail_ix(($api) as usize, "wrong_value", $what, format!("{}: got {:?}, the point-set definition gives {:?}", desc.borrow(), g, e));
+            }
+        }};
+    }
+    // boxes
+    same!(Api::IsValid, "valid_box_is_valid", S::is_valid(a), true);
+    same!(Api::MadeValid, "made_valid_keeps_valid_box", S::made_valid(a), a);
+    same!(Api::MadeValid, "made_valid_swaps", S::made_valid(Bx { min: a.max, max: a.min }), a);
+    same!(Api::ContainsPoint, "closed_interval_membership", S::contains_point(a, t(p)), e_contains_p);
+    same!(Api::ContainsAab, "every_point_contained", S::contains_aab(a, b), e_contains_b);
+    same!(Api::CollidesWithAab, "interiors_share_a_point", S::collides_with_aab(a, b), e_collide);
+    same!(Api::Union, "smallest_box_containing_both", S::union(a, b), bx(ulo, uhi));
+    same!(Api::ExpandToContain, "smallest_box_containing_both", S::expand_to_contain(a, b), bx(ulo, uhi));
+    same!(Api::Intersection, "common_points", S::intersection(a, b), bx(ilo, ihi));
+    same!(Api::Intersect, "common_points", S::intersect(a, b), bx(ilo, ihi));
+    same!(Api::ExpandedToContainPoint, "smallest_box_containing_box_and_point", S::expanded_to_contain_point(a, t(p)), bx(plo, phi));
+    same!(Api::ExpandToContainPoint, "smallest_box_containing_box_and_point", S::expand_to_contain_point(a, t(p)), bx(plo, phi));
+    same!(Api::ProjectedPoint, "nearest_point_of_the_box", S::projected_point(a, t(p)), t(proj));
+    same!(Api::Size, "max_minus_min", S::size(a), ra.ext);
+    same!(Api::HalfSize, "half_of_max_minus_min", S::half_size(a), ra.ext.map(|e| T::of_i(e.to_i() / 2)));
+    same!(Api::IntoRect, "same_point_set", S::into_rect(a), ra);
+    same!(Api::RectFromAab, "same_point_set", S::rect_from_aab(a), ra);
+    same!(Api::AabFromRect, "same_point_set", S::aab_from_rect(ra), a);
+    same!(Api::RIntoAab, "same_point_set", S::r_into_aab(ra), a);
+    if all(&|k| alo[k] + ahi[k] <= T::MAXI) {
+        let c = { let mut c = [0i64; D]; for k in 0..D { c[k] = (alo[k] + ahi[k]) / 2; } c };
+        same!(Api::Center, "midpoint_truncated", S::center(a), t(c));
+        same!(Api::RCenter, "midpoint_truncated", S::r_center(ra), t(c));
+    }
+    // split at a coordinate inside the box
+    let k = rng.below(D as u64) as usize;
+    let sp = rng.range_i64(alo[k], ahi[k]);
+    let (mut lhi, mut hlo) = (ahi, alo);
+    lhi[k] = sp;
+    hlo[k] = sp;
+    same!(Api::SplitAtX as usize + k, "low_and_high_part", S::split_at(k, a, T::of_i(sp)), [bx(alo, lhi), bx(hlo, ahi)]);
+    same!(Api::RSplitAtX as usize + k, "low_and_high_part", S::r_split_at(k, ra, T::of_i(sp)), [rc(alo, lhi), rc(hlo, ahi)]);
+    // rectangles: every rectangle method equals the box method on the converted value
+    same!(Api::RContainsPoint, "closed_interval_membership", S::r_contains_point(ra, t(p)), e_contains_p);
+    same!(Api::RContainsRect, "every_point_contained", S::r_contains_rect(ra, rb), e_contains_b);
+    same!(Api::RCollidesWithRect, "interiors_share_a_point", S::r_collides_with_rect(ra, rb), e_collide);
+    same!(Api::RUnion, "smallest_rect_containing_both", S::r_union(ra, rb), rc(ulo, uhi));
+    same!(Api::RExpandToContain, "smallest_rect_containing_both", S::r_expand_to_contain(ra, rb), rc(ulo, uhi));
+    same!(Api::RExpandedToContainPoint, "smallest_rect_containing_rect_and_point", S::r_expanded_to_contain_point(ra, t(p)), rc(plo, phi));
+    same!(Api::RExpandToContainPoint, "smallest_rect_containing_rect_and_point", S::r_expand_to_contain_point(ra, t(p)), rc(plo, phi));
+    if common {
+        same!(Api::RIntersection, "common_points", S::r_intersection(ra, rb), rc(ilo, ihi));
+        same!(Api::RIntersect, "common_points", S::r_intersect(ra, rb), rc(ilo, ihi));
+        same!(Api::RIntersection, "common_points_commuted", S::r_intersection(rb, ra), rc(ilo, ihi));
+    }
+    common
+}
+
+fn sub_unsigned<T: UEl>(cfg: &Config, name: &str, n: u64) -> Sub
+where
+    S2: Space<T, 2>,
+    S3: Space<T, 3>,
+{
+    let proto = Sub::new(
+        name,
+        &format!("random {} boxes and the rectangles they convert to (2-D and 3-D per case; coordinates on a 10-wide grid placed at 0, at a random offset or right below {}::MAX, second box often touching / sharing a face with the first, point often on a face): is_valid, made_valid, contains_point/box, collides, union, intersection (boxes always; rectangles when the two share a point, so that the extent is a natural number), expand(ed)_to_contain(_point), projected_point, size, half_size, center (when min+max fits), split_at inside the box, box<->rectangle conversions and every rectangle method against the point-set definition evaluated on i64; every input and every expected result fits the type, so a panic (the `checked` profile has overflow checks) or a wrapped value is a violation; non-trivial = the two boxes share a point; distinct by hash of all coordinates", T::TY, T::TY),
+    )
+    .with_floor(n / 4);
+    run_enum(cfg, proto, n, |s, i| {
+        for dim in 0..2usize {
+            let mut rng = Rng::for_case(&format!("{}/{}", name, dim), cfg.case_seed(), i);
+            let mut h = H64::new();
+            h.s(name).u(dim as u64);
+            let desc = RefCell::new(format!("{} case {} ({}-D)", T::TY, i, dim + 2));
+            run_case(s, dim, T::TY, cfg.case_seed(), i, &|| desc.borrow().clone(), |cx| {
+                let nt = if dim == 0 { unsigned_case::<T, 2, S2>(cx, &mut rng, &mut h, &desc) } else { unsigned_case::<T, 3, S3>(cx, &mut rng, &mut h, &desc) };
+                Outcome { nontrivial: nt, hash: Some(h.get()), inconclusive: None }
+            });
+        }
+    })
+}
+
 // ------------------------------------------------------------------ main
 
 const REQ_AAB: [Api; 22] = [
@@ -1461,6 +1627,17 @@ fn main() {
     rep.push(sq);
     rep.push(sf32);
     rep.push(sf64);
+
+    // sampled: unsigned coordinates (natural-number domain; see unsigned_case)
+    let nu = cfg.n(10_000, 300_000);
+    for mut s in [sub_unsigned::<u8>(&cfg, "unsigned_u8", nu), sub_unsigned::<u16>(&cfg, "unsigned_u16", nu), sub_unsigned::<u32>(&cfg, "unsigned_u32", nu)] {
+        if cfg.wants(&s.name) {
+            for n in ["Rect::intersection", "Rect3::intersection", "Rect::union", "Rect3::union", "Rect::contains_point", "Rect3::collides_with_rect3", "Aabr::intersection", "Aabb::union"] {
+                s.required.push(n.into());
+            }
+        }
+        rep.push(s);
+    }
 
     std::process::exit(rep.finish());
 }
